@@ -12,10 +12,8 @@
 use common::json::J;
 use common::rng::{fnv_str, Fnv, Rng};
 use common::texts;
-use std::cell::Cell;
 use std::collections::{BTreeMap, BTreeSet, HashSet};
 use std::panic::{catch_unwind, AssertUnwindSafe};
-use std::sync::atomic::{AtomicI64, AtomicU64, Ordering};
 use std::sync::mpsc::{channel, Receiver, Sender};
 use std::sync::Arc;
 
@@ -23,83 +21,7 @@ const ENGINE_A: u64 = 0xA;
 
 // ------------------------------------------------------------------- seams
 
-thread_local! {
-    static TL_KEYS: Cell<Option<(u64, u64)>> = const { Cell::new(None) };
-    static TL_IN_GENERATE: Cell<bool> = const { Cell::new(false) };
-}
-
-static GETRANDOM_CALLS: AtomicU64 = AtomicU64::new(0);
-static GETRANDOM_UNPLANNED: AtomicU64 = AtomicU64::new(0);
-static GETRANDOM_IN_GENERATE: AtomicU64 = AtomicU64::new(0);
-static CLOCK_READS: AtomicU64 = AtomicU64::new(0);
-static CLOCK_READS_IN_GENERATE: AtomicU64 = AtomicU64::new(0);
-const EPOCH_REAL_NS: i64 = 1_700_000_000 * 1_000_000_000;
-const EPOCH_MONO_NS: u64 = 1_000 * 1_000_000_000;
-static SIM_REAL_NS: AtomicI64 = AtomicI64::new(EPOCH_REAL_NS);
-static SIM_MONO_NS: AtomicU64 = AtomicU64::new(EPOCH_MONO_NS);
-
-/// std obtains a thread's `RandomState` keys through this symbol.
-#[no_mangle]
-pub unsafe extern "C" fn getrandom(buf: *mut u8, len: usize, _flags: u32) -> isize {
-    GETRANDOM_CALLS.fetch_add(1, Ordering::SeqCst);
-    let in_gen = TL_IN_GENERATE.try_with(|f| f.get()).unwrap_or(false);
-    if in_gen {
-        GETRANDOM_IN_GENERATE.fetch_add(1, Ordering::SeqCst);
-    }
-    let keys = TL_KEYS.try_with(|k| k.get()).ok().flatten();
-    let (k0, k1) = match keys {
-        Some(k) => k,
-        None => {
-            let n = GETRANDOM_UNPLANNED.fetch_add(1, Ordering::SeqCst);
-            (0x5EED_0000_0000_0000 ^ n, 0x0BAD_5EED)
-        }
-    };
-    let mut bytes = [0u8; 16];
-    bytes[..8].copy_from_slice(&k0.to_ne_bytes());
-    bytes[8..].copy_from_slice(&k1.to_ne_bytes());
-    for i in 0..len {
-        *buf.add(i) = bytes[i % 16];
-    }
-    len as isize
-}
-
-#[repr(C)]
-pub struct Timespec {
-    tv_sec: i64,
-    tv_nsec: i64,
-}
-
-/// std reads `SystemTime::now()` / `Instant::now()` through this symbol.
-#[no_mangle]
-pub unsafe extern "C" fn clock_gettime(clk: i32, ts: *mut Timespec) -> i32 {
-    CLOCK_READS.fetch_add(1, Ordering::SeqCst);
-    if TL_IN_GENERATE.try_with(|f| f.get()).unwrap_or(false) {
-        CLOCK_READS_IN_GENERATE.fetch_add(1, Ordering::SeqCst);
-    }
-    let ns: i128 = match clk {
-        0 | 5 | 8 | 11 => SIM_REAL_NS.load(Ordering::SeqCst) as i128,
-        _ => SIM_MONO_NS.load(Ordering::SeqCst) as i128,
-    };
-    if !ts.is_null() {
-        (*ts).tv_sec = (ns.div_euclid(1_000_000_000)) as i64;
-        (*ts).tv_nsec = (ns.rem_euclid(1_000_000_000)) as i64;
-    }
-    0
-}
-
-extern "C" {
-    fn syscall(num: i64, ...) -> i64;
-}
-
-/// Real monotonic time, bypassing the interposed symbol. Used only for the
-/// harness's own wall-clock accounting, never for a decision inside a run.
-fn real_now_s() -> f64 {
-    let mut ts = Timespec { tv_sec: 0, tv_nsec: 0 };
-    unsafe {
-        syscall(228, 1i32, &mut ts as *mut Timespec);
-    }
-    ts.tv_sec as f64 + ts.tv_nsec as f64 / 1e9
-}
+include!("../../seam.rs");
 
 // ---------------------------------------------------------- simulated thread
 
@@ -122,11 +44,12 @@ struct Reply {
     outcome: Outcome,
     getrandom_in_generate: u64,
     clock_reads_in_generate: u64,
+    getenv_in_generate: u64,
     canary: u64,
 }
 
 enum Cmd {
-    Generate(Arc<str>),
+    Generate(Arc<str>, u64),
     Canary,
     Exit,
 }
@@ -167,19 +90,24 @@ impl SimThread {
                 TL_KEYS.with(|k| k.set(Some(keys)));
                 while let Ok(cmd) = crx.recv() {
                     match cmd {
-                        Cmd::Generate(text) => {
+                        Cmd::Generate(text, env_salt) => {
                             let g0 = GETRANDOM_IN_GENERATE.load(Ordering::SeqCst);
                             let c0 = CLOCK_READS_IN_GENERATE.load(Ordering::SeqCst);
+                            let e0 = GETENV_IN_GENERATE.load(Ordering::SeqCst);
+                            TL_ENV_SALT.with(|s| s.set(env_salt));
                             TL_IN_GENERATE.with(|f| f.set(true));
                             let outcome = run_generate(&text);
                             TL_IN_GENERATE.with(|f| f.set(false));
+                            TL_ENV_SALT.with(|s| s.set(0));
                             let g1 = GETRANDOM_IN_GENERATE.load(Ordering::SeqCst);
                             let c1 = CLOCK_READS_IN_GENERATE.load(Ordering::SeqCst);
+                            let e1 = GETENV_IN_GENERATE.load(Ordering::SeqCst);
                             let canary = canary_order();
                             let _ = rtx.send(Reply {
                                 outcome,
                                 getrandom_in_generate: g1 - g0,
                                 clock_reads_in_generate: c1 - c0,
+                                getenv_in_generate: e1 - e0,
                                 canary,
                             });
                         }
@@ -189,6 +117,7 @@ impl SimThread {
                                 outcome: Outcome { class: "canary", payload: String::new() },
                                 getrandom_in_generate: 0,
                                 clock_reads_in_generate: 0,
+                                getenv_in_generate: 0,
                                 canary,
                             });
                         }
@@ -227,6 +156,11 @@ struct Step {
     cwd: Option<String>,
     real_jump_ns: i64,
     mono_jump_ns: u64,
+    /// both clocks advance by this much after every read during the call (0 = time stands still)
+    clock_tick_ns: u64,
+    /// non-zero: every environment variable read inside the call gets a value that is a pure
+    /// function of (salt, name)
+    env_salt: u64,
     text: usize,
 }
 
@@ -241,6 +175,7 @@ struct CallRecord {
     canary: u64,
     getrandom_in_generate: u64,
     clock_reads_in_generate: u64,
+    getenv_in_generate: u64,
     nth_call_on_thread: usize,
 }
 
@@ -251,12 +186,13 @@ fn reset_ambient(base_dir: &str) {
     let _ = std::env::set_current_dir(base_dir);
     SIM_REAL_NS.store(EPOCH_REAL_NS, Ordering::SeqCst);
     SIM_MONO_NS.store(EPOCH_MONO_NS, Ordering::SeqCst);
+    SIM_TICK_NS.store(0, Ordering::SeqCst);
 }
 
 fn canonical(text: &str, base_dir: &str) -> Outcome {
     reset_ambient(base_dir);
     let t = SimThread::spawn((0, 0));
-    let r = t.call(Cmd::Generate(Arc::from(text)));
+    let r = t.call(Cmd::Generate(Arc::from(text), 0));
     t.retire();
     r.outcome
 }
@@ -287,13 +223,16 @@ fn exec_script(script: &Script, texts: &[Arc<str>], base_dir: &str, upto: Option
         if threads[st.inc].is_none() {
             threads[st.inc] = Some(SimThread::spawn(script.incarnations[st.inc]));
         }
-        let r = threads[st.inc].as_ref().unwrap().call(Cmd::Generate(texts[st.text].clone()));
+        SIM_TICK_NS.store(st.clock_tick_ns, Ordering::SeqCst);
+        let r = threads[st.inc].as_ref().unwrap().call(Cmd::Generate(texts[st.text].clone(), st.env_salt));
+        SIM_TICK_NS.store(0, Ordering::SeqCst);
         calls[st.inc] += 1;
         out.push(CallRecord {
             outcome: r.outcome,
             canary: r.canary,
             getrandom_in_generate: r.getrandom_in_generate,
             clock_reads_in_generate: r.clock_reads_in_generate,
+            getenv_in_generate: r.getenv_in_generate,
             nth_call_on_thread: calls[st.inc],
         });
     }
@@ -352,6 +291,12 @@ fn draw_script(rng: &mut Rng, n_texts: usize, base_dir: &str) -> (Script, J) {
             }
         }
         let (mut rj, mut mj) = (0i64, 0u64);
+        let env_salt = if env_on && rng.chance(1, 3) { rng.next_u64() | 1 } else { 0 };
+        let clock_tick_ns = if clock_on && rng.chance(1, 3) {
+            *rng.pick(&[1u64, 1_000, 999_999_937, 1_000_000_000, 86_400_000_000_000])
+        } else {
+            0
+        };
         if clock_on && rng.chance(2, 3) {
             let mag = *rng.pick(&[1_000u64, 1_000_000, 1_000_000_000, 3_600_000_000_000, 86_400_000_000_000, 31_557_600_000_000_000, 315_576_000_000_000_000]);
             mj = rng.next_u64() % mag;
@@ -364,6 +309,8 @@ fn draw_script(rng: &mut Rng, n_texts: usize, base_dir: &str) -> (Script, J) {
             cwd,
             real_jump_ns: rj,
             mono_jump_ns: mj,
+            clock_tick_ns,
+            env_salt,
             text: rng.below(n_texts),
         });
     }
@@ -415,6 +362,8 @@ fn script_to_json(s: &Script) -> J {
                             .set("cwd", st.cwd.as_ref().map(|c| J::str(c)).unwrap_or(J::Null))
                             .set("real_jump_ns", J::Int(st.real_jump_ns as i128))
                             .set("mono_jump_ns", J::Int(st.mono_jump_ns as i128))
+                            .set("clock_tick_ns", J::Int(st.clock_tick_ns as i128))
+                            .set("env_salt", J::Int(st.env_salt as i128))
                             .set("text", J::uz(st.text))
                     })
                     .collect(),
@@ -440,6 +389,8 @@ fn script_from_json(j: &J) -> Result<Script, String> {
             cwd: st.get("cwd").and_then(|x| x.as_str()).map(|s| s.to_string()),
             real_jump_ns: st.get("real_jump_ns").and_then(|x| x.as_int()).unwrap_or(0) as i64,
             mono_jump_ns: st.get("mono_jump_ns").and_then(|x| x.as_int()).unwrap_or(0) as u64,
+            clock_tick_ns: st.get("clock_tick_ns").and_then(|x| x.as_int()).unwrap_or(0) as u64,
+            env_salt: st.get("env_salt").and_then(|x| x.as_int()).unwrap_or(0) as u64,
             text: st.get("text").and_then(|x| x.as_usize()).ok_or("text")?,
         });
     }
@@ -562,7 +513,7 @@ fn shrink(mut f: Failure, base_dir: &str, budget: usize) -> (Failure, usize) {
     }
     // 2. drop ambient mutations and clock jumps, step by step
     for i in 0..f.script.steps.len() {
-        for what in 0..3 {
+        for what in 0..5 {
             if steps >= budget {
                 break;
             }
@@ -575,6 +526,8 @@ fn shrink(mut f: Failure, base_dir: &str, budget: usize) -> (Failure, usize) {
                     st.real_jump_ns = 0;
                     st.mono_jump_ns = 0;
                 }
+                3 if st.clock_tick_ns != 0 => st.clock_tick_ns = 0,
+                4 if st.env_salt != 0 => st.env_salt = 0,
                 _ => continue,
             }
             steps += 1;
@@ -711,6 +664,25 @@ fn probe() -> Result<J, String> {
     }
     SIM_REAL_NS.store(EPOCH_REAL_NS, Ordering::SeqCst);
     SIM_MONO_NS.store(EPOCH_MONO_NS, Ordering::SeqCst);
+    // (2b) environment reads inside a call follow the simulated environment
+    std::env::remove_var("KIKI_VERIF_PROBE_VAR");
+    let mut seen = BTreeSet::new();
+    for salt in 1..=16u64 {
+        TL_ENV_SALT.with(|s| s.set(salt));
+        TL_IN_GENERATE.with(|f| f.set(true));
+        let v = std::env::var("KIKI_VERIF_PROBE_VAR").ok();
+        TL_IN_GENERATE.with(|f| f.set(false));
+        TL_ENV_SALT.with(|s| s.set(0));
+        seen.insert(v);
+    }
+    if seen.len() < 3 {
+        return Err(format!("interposed getenv is not in effect: 16 salts gave {} distinct values", seen.len()));
+    }
+    std::env::set_var("KIKI_VERIF_PROBE_VAR", "real");
+    if std::env::var("KIKI_VERIF_PROBE_VAR").ok().as_deref() != Some("real") {
+        return Err("getenv does not answer from the real environment outside a simulated call".into());
+    }
+    std::env::remove_var("KIKI_VERIF_PROBE_VAR");
     // (3) the real clock is still reachable for accounting
     let a = real_now_s();
     if a <= 0.0 {
@@ -720,7 +692,8 @@ fn probe() -> Result<J, String> {
         .set("getrandom_calls_served", J::Int((g1 - g0) as i128))
         .set("distinct_canary_orders_of_8_key_pairs", J::uz(orders.len()))
         .set("equal_keys_equal_order", J::Bool(true))
-        .set("clock_seam", J::Bool(true)))
+        .set("clock_seam", J::Bool(true))
+        .set("getenv_seam_distinct_values_of_16_salts", J::uz(seen.len())))
 }
 
 // --------------------------------------------------------------------- main
@@ -774,6 +747,9 @@ fn main() {
             let mut class_counts: BTreeMap<String, u64> = BTreeMap::new();
             let mut gr_in_gen = 0u64;
             let mut clock_in_gen = 0u64;
+            let mut getenv_in_gen = 0u64;
+            let mut env_salted_calls = 0u64;
+            let mut ticking_calls = 0u64;
             let mut sim_real_span: i128 = 0;
             let mut sim_mono_span: u128 = 0;
             let mut env_mutations = 0u64;
@@ -840,6 +816,9 @@ fn main() {
                     calls += 1;
                     gr_in_gen += rec.getrandom_in_generate;
                     clock_in_gen += rec.clock_reads_in_generate;
+                    getenv_in_gen += rec.getenv_in_generate;
+                    env_salted_calls += (st.env_salt != 0) as u64;
+                    ticking_calls += (st.clock_tick_ns != 0) as u64;
                     canaries.insert(rec.canary);
                     env_mutations += st.env.len() as u64;
                     cwd_changes += st.cwd.is_some() as u64;
@@ -952,6 +931,9 @@ fn main() {
                 .set("getrandom_unplanned", J::Int(GETRANDOM_UNPLANNED.load(Ordering::SeqCst) as i128))
                 .set("getrandom_in_generate", J::Int(gr_in_gen as i128))
                 .set("clock_reads_in_generate", J::Int(clock_in_gen as i128))
+                .set("getenv_in_generate", J::Int(getenv_in_gen as i128))
+                .set("calls_with_simulated_environment", J::Int(env_salted_calls as i128))
+                .set("calls_with_ticking_clock", J::Int(ticking_calls as i128))
                 .set("clock_reads_total", J::Int(CLOCK_READS.load(Ordering::SeqCst) as i128))
                 .set("env_mutations", J::Int(env_mutations as i128))
                 .set("cwd_changes", J::Int(cwd_changes as i128))
